@@ -31,7 +31,7 @@ REQUIRED_THEOREMS = ['parse_print_counts', 'parse_print', 'parse_elements_ascend
                      'parse_rejects_outside_alphabet', 'parse_rejects_unbalanced', 'parse_rejects_invalid',
                      'parse_accepts_weightless', 'parse_rejects_full_fails', 'parse_rejects_full_fixed', 'parse_weightless_nan',
                      'locale_after_call', 'locale_restored_partial', 'locale_restored_full_fails', 'locale_restored_fixed',
-                     'heap_balanced_full_fails', 'heap_leak_leading_group', 'heap_leak_count', 'heap_balanced_partial',
+                     'heap_balanced_full_fails', 'heap_leak_error_path', 'heap_leak_leading_group', 'heap_leak_count', 'heap_balanced_partial',
                      'heap_balanced_fixed', 'add_compound_spec', 'symbol_lookup_agrees']
 
 SEEDS = ['H2O', 'Mg(OH)2', 'Fe2.5O', 'He', 'U', '(H)', 'Ca5(PO4)3F', 'C6H12O6', '(NH4)2SO4', 'K4(Fe(CN)6)', 'H.5O',
